@@ -51,15 +51,25 @@ namespace BitSerializer::Detail
 			outTimestamp.Seconds = std::chrono::duration_cast<std::chrono::seconds>(epochTime).count();
 			const auto leftTime = epochTime - std::chrono::duration_cast<TDuration>(std::chrono::seconds(outTimestamp.Seconds));
 			outTimestamp.Nanoseconds = static_cast<int32_t>(std::chrono::duration_cast<std::chrono::nanoseconds>(leftTime).count());
+			// Nanoseconds must be in the range 0...999999999 (negative time is counted from the previous second)
+			if (outTimestamp.Nanoseconds < 0)
+			{
+				--outTimestamp.Seconds;
+				outTimestamp.Nanoseconds += 1000000000;
+			}
 		}
 	}
 
 	template <typename TClock, typename TDuration>
 	void To(const CBinTimestamp& timestamp, std::chrono::time_point<TClock, TDuration>& outTimePoint)
 	{
+		// Negative time with fractions is converted from the next second (otherwise the first second of the target range is unreachable)
+		const bool isNegativeWithFractions = timestamp.Seconds < 0 && timestamp.Nanoseconds > 0;
+		const int64_t seconds = isNegativeWithFractions ? timestamp.Seconds + 1 : timestamp.Seconds;
+		const int32_t nanoseconds = isNegativeWithFractions ? timestamp.Nanoseconds - 1000000000 : timestamp.Nanoseconds;
 		outTimePoint = std::chrono::time_point<TClock, TDuration>(
-			Convert::Detail::SafeDurationCast<TDuration>(std::chrono::seconds(timestamp.Seconds)));
-		if (timestamp.Nanoseconds)
+			Convert::Detail::SafeDurationCast<TDuration>(std::chrono::seconds(seconds)));
+		if (nanoseconds)
 		{
 			// When duration period is greater than seconds (allowed rounding only seconds fractions)
 			if constexpr (std::ratio_greater_v<typename TDuration::period, std::chrono::seconds::period>)
@@ -69,7 +79,7 @@ namespace BitSerializer::Detail
 			else
 			{
 				// Only seconds fractions can be rounded to target type
-				auto leftTime = std::chrono::round<std::chrono::duration<int64_t, typename TDuration::period>>(std::chrono::nanoseconds(timestamp.Nanoseconds));
+				auto leftTime = std::chrono::round<std::chrono::duration<int64_t, typename TDuration::period>>(std::chrono::nanoseconds(nanoseconds));
 				Convert::Detail::SafeAddDuration(outTimePoint, leftTime);
 			}
 		}
@@ -91,6 +101,12 @@ namespace BitSerializer::Detail
 			outTimestamp.Seconds = std::chrono::duration_cast<std::chrono::seconds>(duration).count();
 			const auto leftTime = duration - std::chrono::duration_cast<std::chrono::duration<TRep, TPeriod>>(std::chrono::seconds(outTimestamp.Seconds));
 			outTimestamp.Nanoseconds = static_cast<int32_t>(std::chrono::duration_cast<std::chrono::nanoseconds>(leftTime).count());
+			// Nanoseconds must be in the range 0...999999999 (negative time is counted from the previous second)
+			if (outTimestamp.Nanoseconds < 0)
+			{
+				--outTimestamp.Seconds;
+				outTimestamp.Nanoseconds += 1000000000;
+			}
 		}
 	}
 
@@ -99,8 +115,12 @@ namespace BitSerializer::Detail
 	{
 		using TDuration = std::chrono::duration<TRep, TPeriod>;
 
-		outDuration = Convert::Detail::SafeDurationCast<TDuration>(std::chrono::seconds(timestamp.Seconds));
-		if (timestamp.Nanoseconds)
+		// Negative time with fractions is converted from the next second (otherwise the first second of the target range is unreachable)
+		const bool isNegativeWithFractions = timestamp.Seconds < 0 && timestamp.Nanoseconds > 0;
+		const int64_t seconds = isNegativeWithFractions ? timestamp.Seconds + 1 : timestamp.Seconds;
+		const int32_t nanoseconds = isNegativeWithFractions ? timestamp.Nanoseconds - 1000000000 : timestamp.Nanoseconds;
+		outDuration = Convert::Detail::SafeDurationCast<TDuration>(std::chrono::seconds(seconds));
+		if (nanoseconds)
 		{
 			// When duration period is greater than seconds (allowed rounding only seconds fractions)
 			if constexpr (std::ratio_greater_v<TPeriod, std::chrono::seconds::period>)
@@ -110,7 +130,7 @@ namespace BitSerializer::Detail
 			else
 			{
 				// Only seconds fractions can be rounded to target type
-				Convert::Detail::SafeAddDuration(outDuration, std::chrono::round<std::chrono::duration<int64_t, TPeriod>>(std::chrono::nanoseconds(timestamp.Nanoseconds)));
+				Convert::Detail::SafeAddDuration(outDuration, std::chrono::round<std::chrono::duration<int64_t, TPeriod>>(std::chrono::nanoseconds(nanoseconds)));
 			}
 		}
 	}
